@@ -7,6 +7,7 @@ package main
 
 import (
 	"fmt"
+	"go/types"
 	"sort"
 	"strings"
 
@@ -41,6 +42,7 @@ type QFact struct {
 	lineIdx int
 	guard   Term
 	varSym  string
+	sort    Sort // sort of the bound variable ("" = Int)
 	body    Term // range ==> body, with varSym free
 	unfolds []unfoldT
 }
@@ -83,7 +85,8 @@ func (e *Env) quantPartsU(q *EQuant) (string, Term, Term, []unfoldT, error) {
 func (e *Env) quantParts0(q *EQuant) (string, Term, Term, error) {
 	e.vc.nfresh++
 	v := quote(fmt.Sprintf("q:%s!%d", q.Var, e.vc.nfresh))
-	env := e.with(map[string]TV{q.Var: {Term{v, SInt}, tInt}})
+	qs, qt := quantSort(q)
+	env := e.with(map[string]TV{q.Var: {Term{v, qs}, qt}})
 	env.bound = true
 	var unf []unfoldT
 	env.unfolds = &unf
@@ -105,6 +108,14 @@ func (e *Env) quantParts0(q *EQuant) (string, Term, Term, error) {
 		rng = and(le(lo.T, Term{v, SInt}), lt(Term{v, SInt}, hi.T))
 	}
 	return v, rng, body, nil
+}
+
+// quantSort is the sort and Go type of a quantifier's bound variable.
+func quantSort(q *EQuant) (Sort, types.Type) {
+	if q.VType == "string" {
+		return SStr, types.Typ[types.String]
+	}
+	return SInt, tInt
 }
 
 func subst(t Term, sym string, by Term) Term {
@@ -134,7 +145,12 @@ func (vc *VC) assumeClause(guard Term, env *Env, cl *Clause) {
 			continue
 		}
 		if q.Forall {
-			vc.qfacts = append(vc.qfacts, &QFact{lineIdx: len(vc.lines), guard: and(guard, h), varSym: v, body: implies(rng, body), unfolds: unf})
+			qs, _ := quantSort(q)
+			vc.qfacts = append(vc.qfacts, &QFact{lineIdx: len(vc.lines), guard: and(guard, h), varSym: v, sort: qs, body: implies(rng, body), unfolds: unf})
+			continue
+		}
+		if q.VType != "" {
+			// existential over a non-integer sort: left to the solver
 			continue
 		}
 		w := vc.fresh("ex:"+q.Var, SInt)
@@ -189,20 +205,30 @@ func (vc *VC) obligeClause(kind, label, site string, guard Term, env *Env, cl *C
 				return
 			}
 			vc.nfresh++
-			sk := Term{quote(fmt.Sprintf("sk:%s!%d", q.Var, vc.nfresh)), SInt}
+			qs, _ := quantSort(q)
+			sk := Term{quote(fmt.Sprintf("sk:%s!%d", q.Var, vc.nfresh)), qs}
 			goal := subst(implies(rng, body), v, sk)
 			o := vc.oblige(kind, label, psite, and(guard, h), goal, src)
 			if o == nil {
 				continue
 			}
-			o.Extra = append(o.Extra, fmt.Sprintf("(declare-const %s Int)", sk.S))
+			o.Extra = append(o.Extra, fmt.Sprintf("(declare-const %s %s)", sk.S, qs))
+			if qs != SInt {
+				// non-integer binder: the quantified assumptions are offered at
+				// the skolem constant only; the solver does the rest
+				for _, u := range unf {
+					o.Extra = append(o.Extra, "(assert "+subst(eq(u.app, u.body), v, sk).S+")")
+				}
+				vc.addInstances(o, []Term{sk})
+				continue
+			}
 			for _, u := range unf {
 				o.Extra = append(o.Extra, "(assert "+subst(eq(u.app, u.body), v, sk).S+")")
 			}
 			vc.addInstances(o, vc.instCandidates([]Term{sk}, env))
 			continue
 		}
-		if isQ && !q.Forall {
+		if isQ && !q.Forall && q.VType == "" {
 			v, rng, body, err := env.quantParts(q)
 			if err != nil {
 				vc.specError(cl, err)
@@ -248,6 +274,9 @@ func (vc *VC) addInstances(o *Obligation, cands []Term) {
 			continue
 		}
 		for _, c := range cands {
+			if qs := qf.sort; (qs == "" && c.Sort != SInt) || (qs != "" && c.Sort != qs) {
+				continue
+			}
 			o.Extra = append(o.Extra, "(assert "+implies(qf.guard, subst(qf.body, qf.varSym, c)).S+")")
 			for _, u := range qf.unfolds {
 				o.Extra = append(o.Extra, "(assert "+subst(eq(u.app, u.body), qf.varSym, c).S+")")
